@@ -63,9 +63,31 @@ OLD_GRID = [-3_786_825_599_876_543, -3_786_825_599_876_542, -631_151_999_000_001
 EDGE_GRID = [-8_520_336_000_000_000 + 5, -8_520_336_000_000_000 + 6, 8_520_336_000_000_000 - 7, 8_520_336_000_000_000 - 6, BASE_US, 0]
 
 
-def wild_vocabulary(rng, n=4, allow_empty=False):
+def admissible(x, dialect=None, encoding=None):
+    """Can the csv module itself carry the cell under this dialect (e.g. a bare CR is a row end to every reader but is
+    only quoted by a writer whose lineterminator contains it), and can the encoding express it?"""
+    import csv
+    import io
+
+    try:
+        x.encode(encoding or "utf-8")
+    except UnicodeEncodeError:
+        return False
+    if not dialect:
+        return True
+    row = ["lead", x, "trail"]
+    try:
+        buf = io.StringIO(newline="")
+        csv.writer(buf, **dialect).writerow(row)
+        return list(csv.reader(io.StringIO(buf.getvalue(), newline=""), **dialect)) == [row]
+    except Exception:
+        return False
+
+
+def wild_vocabulary(rng, n=4, allow_empty=False, ok=None):
     """n strings from NASTY plus, for each, a near neighbour (a variant that some normalisation would merge with it)."""
-    picks = rng.sample([x for x in NASTY if allow_empty or x != ""], n)
+    pool = [x for x in NASTY if (allow_empty or x != "") and (ok is None or ok(x))]
+    picks = rng.sample(pool, min(n, len(pool)))
     out = []
     for x in picks:
         out.append(x)
@@ -82,20 +104,23 @@ def wild_vocabulary(rng, n=4, allow_empty=False):
             out.append(x + "_")
     seen, res = set(), []
     for x in out:
-        if x not in seen:
+        if x not in seen and (ok is None or ok(x)):
             seen.add(x)
             res.append(x)
     return res
 
 
-def make_wild(prof, rng):
+def make_wild(prof, rng, cfg=None):
     """Turn a profile into a 'wild' one: its names, keys and values come from NASTY (a small set per history, so
     that points still collide), numbers from a pool of awkward floats."""
-    prof.meas = [x for x in wild_vocabulary(rng, 3) if x != "_none"] or ["m0"]
+    dialect = (cfg or {}).get("csv") or None
+    encoding = (cfg or {}).get("encoding")
+    ok = (lambda x: admissible(x, dialect, encoding)) if (dialect or encoding) else None
+    prof.meas = [x for x in wild_vocabulary(rng, 3, ok=ok) if x != "_none"] or ["m0"]
     prof.extra_meas = []
-    prof.extra_tag_keys = [x for x in wild_vocabulary(rng, 2, allow_empty=True)]
-    prof.extra_field_keys = [x for x in wild_vocabulary(rng, 2, allow_empty=True)]
-    prof.extra_tag_vals = [x for x in wild_vocabulary(rng, 3, allow_empty=True) if x != "_none"]
+    prof.extra_tag_keys = [x for x in wild_vocabulary(rng, 2, allow_empty=True, ok=ok)]
+    prof.extra_field_keys = [x for x in wild_vocabulary(rng, 2, allow_empty=True, ok=ok)]
+    prof.extra_tag_vals = [x for x in wild_vocabulary(rng, 3, allow_empty=True, ok=ok) if x != "_none"]
     prof.extra_field_vals = list(prof.extra_field_vals) + rng.sample([1e-9, 1e22, -1e-300, 5e-324, 1.0000000000000002, 123456789.123456789, 0.1, -2.5, float("inf"), float("-inf"), 3, -7], 3)
     if prof.grid is None:
         prof.grid = rng.choice([None, None, EPOCH_GRID, FUTURE_GRID, OLD_GRID, EDGE_GRID])
